@@ -143,6 +143,11 @@ static bool drive(IFileSystem* fs, const std::string& op, const char* p1, const 
     return true;
 }
 
+static std::string cur_key = "<none>";
+static IFileSystem* cur_fs = nullptr;
+static RecFS* cur_plain = nullptr;
+static RecFSX* cur_withx = nullptr;
+
 int main(int argc, char** argv) {
     default_logger.log_level = ALOG_AUDIT + 10; // PathCat logs every rejection at ERROR level: silence
     std::ifstream in(argv[1]); std::string line;
@@ -158,20 +163,28 @@ int main(int argc, char** argv) {
         std::string fl, hb, h1, h2, base, p1, p2; ss >> fl >> hb >> h1 >> h2;
         if (fl.size() != 2 || !unhex(hb, base) || !unhex(h1, p1) || !unhex(h2, p2) ||
             !strchr("dfe", fl[0]) || !strchr("xn", fl[1])) { out("BADCASE"); continue; }
-        stat_mode = fl[0];
-        RecFS* plain = nullptr; RecFSX* withx = nullptr; IFileSystem* under;
-        if (fl[1] == 'x') under = withx = new RecFSX; else under = plain = new RecFS;
-        IFileSystem* fs = new_subfs(under, base.c_str(), false);
-        if (!fs) { out("NOFS"); delete plain; delete withx; continue; }
-        rec.clear(); stat_mode = 'd';
-        if (!drive(fs, op, p1.c_str(), p2.c_str())) { out("BADCASE"); delete fs; delete plain; delete withx; continue; }
+        // one sub filesystem is kept across consecutive cases with the same base and flags, so
+        // that state carried from one call to the next (there must be none) would show up
+        std::string key = fl + " " + hb;
+        if (key != cur_key) {
+            delete cur_fs; delete cur_plain; delete cur_withx;
+            cur_fs = nullptr; cur_plain = nullptr; cur_withx = nullptr; cur_key = key;
+            stat_mode = fl[0];
+            IFileSystem* under;
+            if (fl[1] == 'x') under = cur_withx = new RecFSX; else under = cur_plain = new RecFS;
+            cur_fs = new_subfs(under, base.c_str(), false);
+            stat_mode = 'd';
+        }
+        if (!cur_fs) { out("NOFS"); continue; }
+        rec.clear();
+        if (!drive(cur_fs, op, p1.c_str(), p2.c_str())) { out("BADCASE"); continue; }
         if (!rec.called) out("NOCALL");
         else {
             std::string o = rec.op;
             for (auto& a : rec.args) o += a.first ? " " + hex(a.second) : std::string(" NULL");
             out(o);
         }
-        delete fs; delete plain; delete withx;
     }
+    delete cur_fs; delete cur_plain; delete cur_withx;
     return 0;
 }
